@@ -34,8 +34,8 @@ def evaluate_subprocess(spec):
     digests = []
     sig, detail = None, ""
     runs = [("0", wd, {}), ("1", "/", {"TZ": "Pacific/Kiritimati", "LANG": "tr_TR.UTF-8", "COLUMNS": "20"}),
-            (str(spec["hs"][0]), os.path.dirname(wd), {"HOME": "/nonexistent", "TZ": "UTC"}),
-            (str(spec["hs"][1]), wd, {"LC_ALL": "C", "PYTHONDONTWRITEBYTECODE": "1"})]
+            (str(spec["hs"][0]), os.path.dirname(wd), {"HOME": "/nonexistent", "TZ": "UTC", "PYTHONIOENCODING": "ascii"}),
+            (str(spec["hs"][1]), wd, {"LC_ALL": "POSIX", "PYTHONUTF8": "0", "PYTHONCOERCECLOCALE": "0", "PYTHONDONTWRITEBYTECODE": "1"})]
     for i, (hs, cwd, env) in enumerate(runs):
         out = os.path.join(wd, f"det{i}.pcapng")
         if os.path.exists(out):
@@ -138,6 +138,11 @@ def spec_strategy(draw):
         ep = strategies.endpoints(idx=i, sports=(443, 443, 8443))
         if k == "tls":
             c = draw(strategies.tls_conn(max_records=4, max_len=200, ep=ep, delivery=strategies.tcp_delivery(modes=("rec", "cuts"), wrap=False)))
+            # "all captures": also connections whose export is not claimed - DEFLATE selected by the server, HelloRetryRequest
+            if c["version"] != 0x0304 and draw(st.integers(0, 3)) == 0:
+                c["sh_comp"] = True
+            elif c["version"] == 0x0304 and draw(st.integers(0, 3)) == 0:
+                c["hrr"] = draw(st.integers(1, 2))
         else:
             c = draw(strategies.quic_conn(max_steps=8, ep=ep))
             # several CIDs of different lengths, some extending / being a prefix of a CID in use
